@@ -963,6 +963,63 @@ def _sep_ref_scaled(dx, dy):
     return math.ldexp(math.sqrt(fx * fx + fy * fy), k)
 
 
+def check_misc(res):
+    """(a) a coordinate whose x / y are re-assigned so that its kind changes (scalar <-> array) behaves like a coordinate built
+    that way; (b) scalar coordinates holding Python ints add and subtract as Python ints do (no fixed width)."""
+    from regions import PixCoord
+    case = {'op': 'misc', 'sx': [], 'sy': [], 'kind': 'f8'}
+    res.states += 1
+    res.evaluations += 1
+    # (a)
+    for what, first, then in (('scalar -> array', (1.0, 2.0), (np.array([1.0, 2.0, 3.0]), np.array([4.0, 5.0, 6.0]))),
+                              ('array -> scalar', (np.array([1.0, 2.0]), np.array([4.0, 5.0])), (7.0, 8.0)),
+                              ('array -> longer array', (np.array([1.0, 2.0]), np.array([4.0, 5.0])), (np.arange(5.0), np.arange(5.0) + 1))):
+        res.transitions += 1
+        try:
+            p = PixCoord(*first)
+            _ = (p.isscalar, repr(p))
+            p.x, p.y = then
+            fresh = PixCoord(*then)
+            obs = []
+            for q in (p, fresh):
+                o = [bool(q.isscalar)]
+                for fn in (lambda: len(q), lambda: _plain(q[0].xy) if not q.isscalar else 'n/a', lambda: [_plain(e.xy) for e in q],
+                           lambda: _plain((q + PixCoord(1.0, 1.0)).xy), lambda: _plain(q.xy)):
+                    try:
+                        o.append(fn())
+                    except Exception as exc:      # noqa: BLE001
+                        o.append('raise:' + type(exc).__name__)
+                obs.append(o)
+        except Exception as exc:      # noqa: BLE001
+            _V(res, 'unexpected_exception', {**case, 'what': what}, f'{what}: re-assigning x and y raised {_ex(exc)}')
+            continue
+        if obs[0] != obs[1]:
+            _V(res, 'kind_not_following_assignment', {**case, 'what': what},
+               f'{what}: after assigning new x and y the coordinate gives [isscalar, len, [0], iteration, +1, xy] = {obs[0]!r}; one built from the '
+               f'same values gives {obs[1]!r}', obs[1], obs[0])
+    # (b)
+    for a, b in (((2 ** 62, 5), (2 ** 62, 7)), ((-(2 ** 63), 1), (5, -3)), ((2 ** 64 + 3, 0), (1, 2 ** 70)), ((2 ** 53 + 1, 2), (1, 1))):
+        res.transitions += 2
+        for sym, fn, ref in (('+', lambda p, q: p + q, lambda u, v: u + v), ('-', lambda p, q: p - q, lambda u, v: u - v)):
+            try:
+                r = fn(PixCoord(*a), PixCoord(*b))
+                got = (r.x, r.y)
+            except Exception as exc:      # noqa: BLE001
+                _V(res, 'unexpected_exception', {**case, 'a': list(a), 'b': list(b)}, f'PixCoord{a} {sym} PixCoord{b} raised {_ex(exc)}')
+                continue
+            want = (ref(a[0], b[0]), ref(a[1], b[1]))
+            if (int(got[0]), int(got[1])) != want or any(isinstance(g, float) for g in got):
+                _V(res, 'add_wrong' if sym == '+' else 'sub_wrong', {**case, 'a': list(a), 'b': list(b)},
+                   f'PixCoord{a} {sym} PixCoord{b} = ({got[0]!r}, {got[1]!r}), integer arithmetic gives {want}', list(want), [repr(got[0]), repr(got[1])])
+    res.outcome(('misc',))
+
+
+def _plain(v):
+    if isinstance(v, tuple):
+        return [_plain(e) for e in v]
+    return np.asarray(v, float).tolist()
+
+
 def check_sep_extreme(res, only=None):
     """separation for coordinate differences of extreme magnitude (the Euclidean distance is representable although
     the squares of the differences are not): full product of |dx| x |dy| x signs, scalars and arrays."""
@@ -1251,6 +1308,7 @@ def run_shard(shard, tier, seed):
         elif shard['kind'] == 'sep_extreme':
             check_sep_extreme(res)
             check_rotate_near_centre(res)
+            check_misc(res)
         else:
             raise ValueError(shard['kind'])
     return res
@@ -1285,6 +1343,8 @@ def replay(case):
             check_sep_extreme(res)
         elif op == 'rotate_near_centre':
             check_rotate_near_centre(res)
+        elif op == 'misc':
+            check_misc(res)
         else:
             raise ValueError(op)
     return res
